@@ -398,6 +398,7 @@ func (s *Sim) Quiesce(point string) {
 		}
 		return true
 	}, nil)
+	s.joined()
 }
 
 // OpEnd must be called by a harness task after every API call into the code
